@@ -2,6 +2,7 @@ import Ark.Proofs.TableIDs
 import Ark.Proofs.ArchIndex
 import Ark.Props.C05Cache
 import Ark.Proofs.GenBridge.BookArchetype
+import Ark.Props.C05Hist
 
 namespace Ark.Props.C05
 open Ark
@@ -88,5 +89,44 @@ theorem src_freeAllTables : type_of% @Ark.GenBridge.Book.freeAllTables_eq := @Ar
 theorem src_freeAllTables_storage : type_of% @Ark.GenBridge.Book.freeAllTables_storage := @Ark.GenBridge.Book.freeAllTables_storage
 /-- what marking a list of tables free does to the table store -/
 theorem src_markFree : type_of% @Ark.GenBridge.Book.markFree_fold := @Ark.GenBridge.Book.markFree_fold
+
+
+/-! ### Over whole histories (Props/C05Hist) -/
+
+/-- the joint invariant (refinement ∧ cache ∧ relation index ∧ filter heap ∧ component index ∧ lock pool ∧ cache ID pool) holds after every history of entity operations interleaved with filter definition, registration and unregistration -/
+theorem hist_reach2_invariant : type_of% @Ark.Props.C05Hist.reach2_invariant := @Ark.Props.C05Hist.reach2_invariant
+
+/-- the cache invariant holds after every such history -/
+theorem hist_reach2_cacheInv : type_of% @Ark.Props.C05Hist.reach2_cacheInv := @Ark.Props.C05Hist.reach2_cacheInv
+
+/-- the storage facts the cache relies on hold after every such history -/
+theorem hist_reach2_tablesInv : type_of% @Ark.Props.C05Hist.reach2_tablesInv := @Ark.Props.C05Hist.reach2_tablesInv
+
+/-- filter objects and cache entries agree after every such history -/
+theorem hist_reach2_heapOK : type_of% @Ark.Props.C05Hist.reach2_heapOK := @Ark.Props.C05Hist.reach2_heapOK
+
+/-- **C05 over histories**: at every reachable state every registered filter's cached table list is duplicate-free and has the members of the uncached walk -/
+theorem hist_cached_eq_uncached : type_of% @Ark.Props.C05Hist.cached_eq_uncached := @Ark.Props.C05Hist.cached_eq_uncached
+
+/-- Count agrees, the expected rows are permutations, EntityAt enumerates the same entities -/
+theorem hist_open_agree : type_of% @Ark.Props.C05Hist.open_agree := @Ark.Props.C05Hist.open_agree
+
+/-- both drains succeed, end in the same world (the original up to the lock pool, unlocked), visit each selected row once, and are permutations of each other -/
+theorem hist_drain_agree : type_of% @Ark.Props.C05Hist.drain_agree := @Ark.Props.C05Hist.drain_agree
+
+/-- the same without per-call relations -/
+theorem hist_drain_agree_nil : type_of% @Ark.Props.C05Hist.drain_agree_nil := @Ark.Props.C05Hist.drain_agree_nil
+
+/-- the batch selection agrees (restricted to non-empty tables) -/
+theorem hist_batch_agree : type_of% @Ark.Props.C05Hist.batch_agree := @Ark.Props.C05Hist.batch_agree
+
+/-- when the typed validation rejects the per-call relations both queries panic alike and nothing changes -/
+theorem hist_rejected_extra_agree : type_of% @Ark.Props.C05Hist.rejected_extra_agree := @Ark.Props.C05Hist.rejected_extra_agree
+
+/-- finding: the cached batch selection skips empty tables, the uncached one lists them (no observable difference: batches skip empty tables) -/
+theorem hist_batch_differs_on_empty : type_of% @Ark.Props.C05Hist.batch_differs_on_empty := @Ark.Props.C05Hist.batch_differs_on_empty
+
+/-- finding: a typed filter object whose type list is not in its mask diverges (not constructible through the typed API) -/
+theorem hist_unguarded_typed_filter_diverges : type_of% @Ark.Props.C05Hist.unguarded_typed_filter_diverges := @Ark.Props.C05Hist.unguarded_typed_filter_diverges
 
 end Ark.Props.C05
